@@ -282,8 +282,8 @@ macro_rules! with_1d {
         )*
         // interp_into: buffer = data shape without the first axis; queries inside an interval
         // and exactly at the last / first knot
-        for x in [1.25, (job.data_shape[0] - 1) as f64, 0.0, -3.5, f64::NAN] {
-            if !job.extrapolate() && !(x >= 0.0) {
+        for x in [1.25, (job.data_shape[0] - 1) as f64, 0.0, -3.5, (job.data_shape[0] - 1) as f64 + 2.5, f64::INFINITY, f64::NAN] {
+            if !job.extrapolate() && !(x >= 0.0 && x <= (job.data_shape[0] - 1) as f64) {
                 continue;
             }
             let ip = nimc::valid_build!($out, Interp1DBuilder::new(data.clone()).strategy($strat).build(), return);
